@@ -63,6 +63,7 @@ type Clause struct {
 	Name  string   // optional label
 	Props []string // optional: properties this clause belongs to (default: all of the function's)
 	Mode  string   // optional: integer model this clause is proved in ("int" | "bv"; default: the function's)
+	Unproved bool  // written but not discharged: never checked, assumed by callers, listed in the evidence
 }
 
 type Contract struct {
@@ -81,6 +82,7 @@ type Contract struct {
 	Line     int
 	File     string
 	Props    []string // properties this function is under contract for
+	Uses     []string // axiom groups this function's proofs may use
 	NoNil    bool     // rte.nil obligations are not generated (stated assumption)
 	Lemma    bool     // ghost client (lemma) function
 }
@@ -125,6 +127,7 @@ type Spec struct {
 		Pkg string
 		C   Clause
 	}
+	AxiomGroups []string // parallel to Axioms: the group label ("" = none)
 }
 
 func newSpec() *Spec {
@@ -220,6 +223,7 @@ func (sp *Spec) loadFile(path string, pkg string) error {
 		case "requires", "ensures":
 			name := ""
 			cmode := ""
+			unproved := false
 			var cprops []string
 			if strings.HasPrefix(rest, "[") {
 				j := strings.Index(rest, "]")
@@ -228,6 +232,10 @@ func (sp *Spec) loadFile(path string, pkg string) error {
 				if k := strings.Index(name, "@"); k >= 0 {
 					cprops = strings.Fields(strings.ReplaceAll(name[k+1:], ",", " "))
 					name = strings.TrimSpace(name[:k])
+				}
+				if strings.Contains(name, "!unproved") {
+					unproved = true
+					name = strings.TrimSpace(strings.Replace(name, "!unproved", "", 1))
 				}
 				if k := strings.Index(name, "%"); k >= 0 {
 					cmode = strings.TrimSpace(name[k+1:])
@@ -238,7 +246,7 @@ func (sp *Spec) loadFile(path string, pkg string) error {
 			if err != nil {
 				return fail(err)
 			}
-			cl := Clause{Text: rest, E: e, Name: name, Props: cprops, Mode: cmode}
+			cl := Clause{Text: rest, E: e, Name: name, Props: cprops, Mode: cmode, Unproved: unproved}
 			if word == "requires" {
 				cur.Requires = append(cur.Requires, cl)
 			} else {
@@ -302,7 +310,16 @@ func (sp *Spec) loadFile(path string, pkg string) error {
 				}
 			}
 			sp.Ghosts[g.Name] = g
+		case "uses":
+			cur.Uses = append(cur.Uses, strings.Fields(rest)...)
 		case "axiom":
+			group := ""
+			if strings.HasPrefix(rest, "[") {
+				j := strings.Index(rest, "]")
+				group = rest[1:j]
+				rest = strings.TrimSpace(rest[j+1:])
+			}
+			sp.AxiomGroups = append(sp.AxiomGroups, group)
 			e, err := parseExpr(rest)
 			if err != nil {
 				return fail(err)
